@@ -216,7 +216,11 @@ func (s *c08Srv) serveConn(c net.Conn) {
 				io.WriteString(c, httpHead(405, "text/plain", "", 0))
 				continue
 			}
-			if s.sc.At == "connect-stall" || s.sc.At == "connect-stall2" {
+			if s.sc.At == "endpoint-stall2" {
+				// the response headers come, the endpoint event never does
+				io.WriteString(c, httpHead(200, "text/event-stream", "Cache-Control: no-cache\r\n", -1))
+			}
+			if s.sc.At == "connect-stall" || s.sc.At == "connect-stall2" || s.sc.At == "endpoint-stall2" {
 				// the stream's response headers never come: the client is still shaking hands
 				s.mu.Lock()
 				s.calls = s.sc.NCalls
@@ -508,7 +512,7 @@ func c08Run(sc c08Scenario) (res c08Result) {
 		res.Broken = "unknown client " + sc.Client
 		return
 	}
-	if sc.At == "connect-stall2" {
+	if sc.At == "connect-stall2" || sc.At == "endpoint-stall2" {
 		// a first handshake attempt gives up at its deadline; the second one is the one Close() interrupts
 		fstart := time.Now()
 		fctx, fcancel := context.WithTimeout(context.Background(), 300*time.Millisecond)
@@ -527,7 +531,7 @@ func c08Run(sc c08Scenario) (res c08Result) {
 			return
 		}
 	}
-	if sc.At == "connect-stall" || sc.At == "connect-stall2" {
+	if sc.At == "connect-stall" || sc.At == "connect-stall2" || sc.At == "endpoint-stall2" {
 		// Close() while the handshake is still waiting for the stream's response headers: the handshake ends, and what the
 		// client holds towards the (still living, silent) server is released
 		res.Calls = make([]c08Call, 1)
